@@ -30,6 +30,7 @@ var Hosts = []string{
 	"1.2.3", "1.2.3.4.5", "abc", "12", "fe80", "bücher.example", "пример.рф",
 	// Names with many labels (walks over parent domains have no small bound).
 	"a.b.c.d.e.f.g.h.i.j.k.l.example.org", DeepHost,
+	"myshop.example", "news.example.org",
 	// A label of the maximum length of 63 characters.
 	Label63 + ".com", "x." + Label63 + ".a.com",
 }
@@ -48,6 +49,8 @@ var DomainValues = []string{
 	"a.b.c.d.e.f.g.h.i.j.k.l.example.org", "h.i.j.k.l.example.org", DeepHost,
 	// Values that end in another value of the vocabulary without being below it.
 	"xa.com", "xgoogle.com", "xa.co.uk", "vil.org", "le.org",
+	// Values written with capital letters (compared as written).
+	"MyShop.example", "News.Example.org",
 }
 
 // DenyAllowValues are values for $denyallow (no wildcard: the statement does
